@@ -38,6 +38,23 @@ int main(int argc, char **argv) {
       if (t && std::string(*t) == SECRET) { printf("getTemplate(\"%s\") returned the secret\n", n.c_str()); bad++; }
     }
   }
+  // embedded mode with an EXTERNAL_DIR (RD-11): externalized names that are symlinks leading outside the directory must not be served
+  {
+    fs::path ext = base / "ext";
+    put(ext / "img/ok.png", "OK");
+    fs::create_symlink(base / "secret.txt", ext / "logo.png");              // leaf link leading outside
+    fs::create_directory_symlink(base / "secretdir", ext / "priv");         // directory link leading outside
+    static std::string extDirStr; extDirStr = ext.string();
+    static const std::string_view extPaths[] = {"img/ok.png", "logo.png", "priv/secret.txt"};   // sorted
+    iora::web::EmbeddedAssetRegistry reg; reg.externalDir = extDirStr; reg.externalPaths = extPaths; reg.externalPathsCount = 3;
+    auto assets = iora::web::Assets::fromEmbedded(reg);
+    for (auto n : extPaths) {
+      auto r = assets.getStatic(n);
+      if (r.status == iora::web::GetStaticResult::Status::Found && std::string(r.blob.bytes) == SECRET) { printf("embedded/external getStatic(\"%s\") returned the secret\n", std::string(n).c_str()); bad++; }
+    }
+    auto ok = assets.getStatic("img/ok.png");
+    if (ok.status != iora::web::GetStaticResult::Status::Found) { printf("embedded/external: the regular externalized asset is not served (adapter problem)\n"); }
+  }
   fs::remove_all(base);
   if (bad) replay_io::fail("content from outside the root was returned");
   replay_io::ok("no lookup returned content from outside the root");
